@@ -388,6 +388,27 @@ pub fn child_main(args: &[String]) -> i32 {
         }
     }
 
+    // (4b) multipliers spread log-uniformly over the whole i64 range (bands between the obvious thresholds)
+    run_cases(&mut rep, "bands", if thorough { 20_000 } else { 2_000 }, |rep, rng, _| {
+        let bits = 1 + rng.below(62);
+        let n = ((1u64 << bits) | rng.below(1u64 << bits)) as i64;
+        let unit = *rng.pick(&UNITS[..]);
+        let modulate = rng.chance(1, 2);
+        rep.case(&format!("{}|band|{:?}|{}|{}", zone_ref, unit, n, modulate), true);
+        rep.count("huge_interval_calls", 1);
+        let ts = days_from_civil(2024, 5, 17) * 86400 + rng.range(0, 86400);
+        let LocalResult::Single(current) = Local.timestamp_opt(ts, 0) else { return };
+        let d = json!({"zone": zone_ref, "current": current.to_rfc3339(), "unit": format!("{:?}", unit), "n": n, "modulate": modulate});
+        match trap::catch(|| TimeTrigger::verif_get_next_time(current, interval(unit, n), modulate)) {
+            Err(p) => rep.violation(&format!("C16:panic:get_next_time:huge-interval:{}", panic_class(&p.message)), json!({"call": d, "panic": p.message})),
+            Ok(next) => {
+                if next <= current {
+                    rep.violation("C16:huge-interval:schedule-not-in-the-future", json!({"call": d, "next": next.to_rfc3339()}));
+                }
+            }
+        }
+    });
+
     // (5) histories on the driven clock
     run_cases(&mut rep, "history", if thorough { 2500 } else { 250 }, |rep, rng, idx| history(rep, rng, zone_ref, table_ref, idx));
 
